@@ -574,8 +574,8 @@ func checkSet(txns []types.V2Transaction, wantMp []types.Hash256, wantNumLeaves 
 // features of a case, for the vacuity guards
 type setFeatures struct {
 	dup, chainIndex, ephemeral, multiTree, paired bool
-	kinds                                      map[string]bool
-	nontrivial                                 bool
+	kinds                                         map[string]bool
+	nontrivial                                    bool
 }
 
 func featuresOf(txns []types.V2Transaction) setFeatures {
@@ -700,4 +700,3 @@ func runCase(c *vlib.Ctx, st *stats, f *forest, raw string) {
 		c.Sample(map[string]any{"part": "multiproof", "n": cs.N, "m": cs.M, "txs": cs.Txs, "numLeaves": cs.NumLeaves, "mp": cs.Mp})
 	}
 }
-
